@@ -252,16 +252,22 @@ pub fn replay_case(case: &Value, idx: u64, seed: u64, rep: &mut Report) -> Resul
                         presented.push((s.cf.clone(), s.ad.clone(), "stream with another key".into()));
                         presented.push((s.ch.clone(), s.ad.clone(), "stream with another header".into()));
                     }
+                    // the genuine ciphertext in order, but the receiver's message buffer is one byte shorter than the message: not
+                    // accepted (Stream.tla: every presentation other than "none" is an Err that changes nothing)
+                    "shortbuf" => { if !s.m.is_empty() { presented.push((s.c.clone(), s.ad.clone(), "message buffer one byte short".into())); } }
                     other => bail!(si, "unknown mutation in case file", other),
                 }
                 for (c, ad, how) in presented {
+                    let short = mutk == "shortbuf";
                     rep.count(&format!("pull:{}:{}", mutk, if exp_ok { "ok" } else { "err" }));
                     let before = dpull.clone();
                     let kb = before.verif_parts().0;
-                    let mut m = vec![0u8; c.len() - ABYTES];
+                    let mut m = vec![0u8; c.len() - ABYTES - (short as usize)];
                     let mut tag = 0xeeu8;
                     let r = catch(|| cs::crypto_secretstream_xchacha20poly1305_pull(&mut dpull, &mut m, &mut tag, &c, ad.as_deref()));
-                    let sr = so_pull(&mut spull, &c, ad.as_deref());
+                    // libsodium's C interface has no buffer length to get wrong: it is not consulted for this presentation
+                    let sr = if short { Err(()) } else { so_pull(&mut spull, &c, ad.as_deref()) };
+                    if short && (tag != 0xee || m.iter().any(|b| *b != 0)) { bail!(si, "pull into a short buffer wrote the tag or the buffer", {"tag": tag}); }
                     let got_ok = match &r {
                         Ok(Ok(_)) => true,
                         Ok(Err(_)) => false,
@@ -278,10 +284,10 @@ pub fn replay_case(case: &Value, idx: u64, seed: u64, rep: &mut Report) -> Resul
                     }
                     // object API
                     let obefore = opull.verif_state().clone();
-                    let orr = if s.tag <= 3 || !exp_ok {
+                    // (the object API sizes its own output: the short-buffer presentation does not exist there)
+                    let orr = if !short {
                         Some(catch(|| opull.pull::<Vec<u8>, Vec<u8>>(&c, ad.as_ref())))
                     } else {
-                        opull = DryocStream::verif_from_state(dpull.clone());
                         None
                     };
                     if exp_ok {
@@ -425,9 +431,10 @@ pub fn cmd_trace(args: &[String]) {
                         0..=5 => (std::cmp::min(next, wire.len() - 1), "none"),
                         6 => (rng.below(wire.len() as u64) as usize, "none"),
                         7 => (std::cmp::min(next, wire.len() - 1), "ad"),
-                        8 => (std::cmp::min(next, wire.len() - 1), "flip"),
+                        8 => (std::cmp::min(next, wire.len() - 1), if rng.below(3) == 0 { "shortbuf" } else { "flip" }),
                         _ => (rng.below(wire.len() as u64) as usize, "flip"),
                     };
+                    let mutk = if mutk == "shortbuf" && wire[i].3.is_empty() { "flip" } else { mutk };
                     let (c0, ad0, tag0, m0) = wire[i].clone();
                     let mut c = c0.clone();
                     let mut ad = ad0.clone();
@@ -443,13 +450,13 @@ pub fn cmd_trace(args: &[String]) {
                     }
                     let before = dpull.clone();
                     let kb = before.verif_parts().0;
-                    let (ok, tag_out, msg_ok) = if use_obj && tag0 <= 3 {
+                    let (ok, tag_out, msg_ok) = if use_obj && mutk != "shortbuf" {
                         let mut o: DryocStream<Pull> = DryocStream::verif_from_state(dpull.clone());
                         let r: Result<(Vec<u8>, Tag), _> = o.pull(&c, ad.as_ref());
                         dpull = o.verif_state().clone();
                         match r { Ok((m, t)) => (true, t.bits() as i64, m == m0), Err(_) => (false, -1, true) }
                     } else {
-                        let mut m = vec![0u8; c.len() - ABYTES];
+                        let mut m = vec![0u8; c.len() - ABYTES - ((mutk == "shortbuf") as usize)];
                         let mut t = 0u8;
                         let r = cs::crypto_secretstream_xchacha20poly1305_pull(&mut dpull, &mut m, &mut t, &c, ad.as_deref());
                         match r { Ok(_) => (true, t as i64, m == m0), Err(_) => (false, -1, true) }
